@@ -745,6 +745,8 @@ impl Reader {
       // stateless reader: nothing to do before making cache change
     }
 
+    #[cfg(rustdds_verif)]
+    crate::verif::sched::point("Reader.before_cache_insert");
     self.make_cache_change(
       dds_data,
       receive_timestamp,
@@ -753,6 +755,8 @@ impl Reader {
       writer_sn,
     );
 
+    #[cfg(rustdds_verif)]
+    crate::verif::sched::point("Reader.after_cache_insert");
     // Add to own track-keeping data structure
     #[cfg(test)]
     self.seqnum_instant_map.insert(writer_sn, receive_timestamp);
@@ -920,6 +924,8 @@ impl Reader {
         let marker_moved = this
           .acquire_the_topic_cache_guard()
           .mark_reliably_received_before(writer_guid, writer_proxy.all_ackable_before());
+        #[cfg(rustdds_verif)]
+        crate::verif::sched::point("Reader.hb.after_marker");
         if marker_moved {
           this.notify_cache_change();
         }
@@ -1127,6 +1133,8 @@ impl Reader {
     // Receiving a GAP could make a Reliable stream.
     // E.g. we had #2, but were missing #1. Now GAP says that #1 does not exist.
     // Then a Reliable Datareader
+    #[cfg(rustdds_verif)]
+    crate::verif::sched::point("Reader.gap.after_marker");
     if marker_moved {
       self.notify_cache_change();
     }
@@ -1217,9 +1225,13 @@ impl Reader {
       .take() // Take to nullify the reference
       .map(|w| w.wake_by_ref()); // If Some, call wake_by_ref
 
+    #[cfg(rustdds_verif)]
+    crate::verif::sched::point("Reader.notify.after_waker");
     // mio-0.8 notify
     self.poll_event_sender.send();
 
+    #[cfg(rustdds_verif)]
+    crate::verif::sched::point("Reader.notify.after_mio08");
     // mio-0.6 notify
     match self.notification_sender.try_send(()) {
       Ok(()) => (),
